@@ -179,6 +179,13 @@ class IdentityTable(Clauses):
         if got is None:
             I.count(self.PROP + ".identity.undescribable")
             return None
+        try:
+            # a float exponent can only come from mixed-base prefix arithmetic, possibly in an
+            # earlier world (a decoded blob) or before the bases cancelled again
+            if isinstance(u.prefix.exponent, float):
+                tainted = True
+        except AttributeError:
+            pass
         if tainted or not single_base_int(m[0]):
             # mixed bases: only the numeric scale is constrained (1e-9)
             I.count(self.PROP + ".scale.checked")
@@ -225,6 +232,12 @@ class IdentityTable(Clauses):
                 bases |= self.bases(I.mvals.get(i), (I.vals.get(i) or (None,))[0])
         if len(bases - {0}) > 1:
             tainted = True
+        try:
+            vs = value if kind == "pair" else [value.unit if kind == "qty" else value]
+            if kind in ("unit", "qty", "pair") and any(isinstance(v.prefix.exponent, float) for v in vs):
+                tainted = True
+        except AttributeError:
+            pass
         if tainted and "id" in op:
             self.tainted.add(op["id"])
         out = {}
@@ -249,6 +262,10 @@ class IdentityTable(Clauses):
                                 {"dim": list(mval)})
                     out[self.PROP + ".identity"] = "VIOLATED"
         elif kind == "prefix":
+            if isinstance(getattr(value, "exponent", 0), float):
+                tainted = True
+                if "id" in op:
+                    self.tainted.add(op["id"])
             if tainted or not single_base_int(mval):
                 I.count(self.PROP + ".scale.checked")
                 try:
